@@ -21,7 +21,7 @@ ASSUMPTIONS = ['isosim/dec_iso.py decodes SVD names as UTF-16BE (Joliet: UCS-2BE
 def cfg_fn(r):
     cfg = G.swarm_config(r)
     cfg['joliet'] = r.choice((1, 2, 3, 3))
-    return cfg
+    return G.clamp_config(cfg)
 
 
 def post_gen(plan, w, model):
